@@ -38,6 +38,7 @@ inductive Val where
   | obj (i : Nat)            -- a user object (index into `World.objs`), compared by identity unless its class says otherwise
   | objs (is : List Nat)     -- a list of user objects
   | none                     -- Python `None`
+  | set (xs : List Int)      -- a `frozenset` of numbers: ordered by inclusion, a PARTIAL order
   deriving DecidableEq, Repr, Inhabited
 
 /-- user objects: class id, attribute table (a zero-argument method `m` is the attribute `m()` holding its result);
@@ -121,6 +122,7 @@ def truthy : Val → Bool
   | .obj _ => true
   | .objs xs => !xs.isEmpty
   | .none => false
+  | .set xs => !xs.isEmpty
 
 /-! ### variables of terms and expressions -/
 
@@ -227,6 +229,7 @@ def valEq (w : World) : Val → Val → Bool
   | .obj i, .obj j => objEq w i j
   | .objs a, .objs b => a.length == b.length && (a.zip b).all fun p => objEq w p.1 p.2
   | .none, .none => true
+  | .set a, .set b => a.all (b.contains ·) && b.all (a.contains ·)
   | _, _ => false
 
 def asNum : Val → Option Int
@@ -250,16 +253,23 @@ def applyCmp (w : World) (op : CmpOp) (l r : Val) : Except Err Bool :=
     | .list a, .list b => .ok (!setEq a b)
     | .objs a, .objs b => .ok (!setEqObjs a b)
     | _, _ => .ok (!valEq w l r)
-  | _ => match asNum l, asNum r with
-    | some a, some b => .ok (match op with
-        | .lt => decide (a < b) | .le => decide (a ≤ b) | .gt => decide (a > b) | _ => decide (a ≥ b))
-    | _, _ => .error .badOperand
+  | _ => match l, r with
+    | .set a, .set b =>
+      -- inclusion: `a < b` and `a >= b` are BOTH false for incomparable sets
+      let sub := a.all (b.contains ·)
+      let sup := b.all (a.contains ·)
+      .ok (match op with | .lt => sub && !sup | .le => sub | .gt => sup && !sub | _ => sup)
+    | _, _ => match asNum l, asNum r with
+      | some a, some b => .ok (match op with
+          | .lt => decide (a < b) | .le => decide (a ≤ b) | .gt => decide (a > b) | _ => decide (a ≥ b))
+      | _, _ => .error .badOperand
 
 /-- `operator.contains(container, item)`: list membership uses `==` -/
 def applyContains (w : World) (container item : Val) : Except Err Bool :=
   match container with
   | .list xs => .ok (xs.any fun x => valEq w (.int x) item)
   | .objs xs => .ok (xs.any fun x => valEq w (.obj x) item)
+  | .set xs => .ok (xs.any fun x => valEq w (.int x) item)
   | _ => .error .badOperand
 
 /-! ### evaluation -/
